@@ -519,6 +519,7 @@ func s3s4(w *World, r *Report) {
 			continue
 		}
 		reads := fieldsSelectedIn(pinfo, pfd.Body, n)
+		w.addHelperFieldReads(w.Method(pkgCT, pt, "EncodeRLP"), n, reads)
 		var missing []string
 		for _, f := range fields {
 			if !reads[f.Name()] {
@@ -556,6 +557,37 @@ func s3s4(w *World, r *Report) {
 		case *ssa.Call:
 			if nm := callName(x.Common()); nm == "Bytes" || nm == "Bytes32" {
 				kind = "uint256-bytes"
+			}
+			// a helper of the type that builds the RLP struct and hands it back
+			if cal := x.Common().StaticCallee(); cal != nil && w.InModule(cal) && cal.Blocks != nil {
+				all := true
+				nRet := 0
+				for _, b := range cal.Blocks {
+					if rt, isR := lastInstr(b).(*ssa.Return); isR && b != cal.Recover {
+						nRet++
+						al, isA := stripConv(rt.Results[0]).(*ssa.Alloc)
+						if len(rt.Results) != 1 || !isA {
+							all = false
+						} else if _, isS := deref(al.Type()).Underlying().(*types.Struct); !isS {
+							all = false
+						}
+					}
+				}
+				if all && nRet > 0 {
+					kind = "struct"
+					// the helper must not concatenate either
+					pfn = nil
+					for _, b := range cal.Blocks {
+						for _, in := range b.Instrs {
+							if bo, ok := in.(*ssa.BinOp); ok && bo.Op == token.ADD {
+								if bt, ok := bo.Type().Underlying().(*types.Basic); ok && bt.Info()&types.IsString != 0 {
+									kind = ""
+								}
+							}
+						}
+					}
+					pfn = w.Method(pkgCT, pt, "EncodeRLP")
+				}
 			}
 		}
 		if kind == "" {
@@ -722,27 +754,7 @@ func s5(w *World, r *Report) {
 		if efd != nil {
 			reads := fieldsSelectedIn(einfo, efd.Body, n)
 			// the wire struct may be built by a helper of the type
-			if ef := w.Method(pkgCT, pt, "Encode"); ef != nil {
-				for _, g := range w.withModuleCallees(ef, 3) {
-					if g == ef {
-						continue
-					}
-					for _, b := range g.Blocks {
-						for _, in := range b.Instrs {
-							switch x := in.(type) {
-							case *ssa.FieldAddr:
-								if o, f := fieldOf(x.X.Type(), x.Field); o != nil && f != nil && o.Obj() == n.Obj() {
-									reads[f.Name()] = true
-								}
-							case *ssa.Field:
-								if o, f := fieldOf(x.X.Type(), x.Field); o != nil && f != nil && o.Obj() == n.Obj() {
-									reads[f.Name()] = true
-								}
-							}
-						}
-					}
-				}
-			}
+			w.addHelperFieldReads(w.Method(pkgCT, pt, "Encode"), n, reads)
 			var missing []string
 			for _, f := range structFields(n) {
 				if !reads[f.Name()] {
@@ -750,6 +762,33 @@ func s5(w *World, r *Report) {
 				}
 			}
 			r.Check(len(missing) == 0, "S-5", "payload:"+pt+":Encode", "wire encoder reads every field", "wire encoder drops field(s): "+strings.Join(missing, ","), w.Pos(efd.Pos()))
+		}
+	}
+}
+
+// addHelperFieldReads: the fields of owner that the module helpers called by fn
+// (three levels) read are added to reads.
+func (w *World) addHelperFieldReads(fn *ssa.Function, owner *types.Named, reads map[string]bool) {
+	if fn == nil {
+		return
+	}
+	for _, g := range w.withModuleCallees(fn, 3) {
+		if g == fn {
+			continue
+		}
+		for _, b := range g.Blocks {
+			for _, in := range b.Instrs {
+				switch x := in.(type) {
+				case *ssa.FieldAddr:
+					if o, f := fieldOf(x.X.Type(), x.Field); o != nil && f != nil && o.Obj() == owner.Obj() {
+						reads[f.Name()] = true
+					}
+				case *ssa.Field:
+					if o, f := fieldOf(x.X.Type(), x.Field); o != nil && f != nil && o.Obj() == owner.Obj() {
+						reads[f.Name()] = true
+					}
+				}
+			}
 		}
 	}
 }
